@@ -565,7 +565,7 @@ func ruleC06(prog *Program, rep *Report) {
 	if rep.Tier == "thorough" {
 		// a table cell rarely leads to a panic, so nearly every mutant is explored in full (no early exit):
 		// a third of the default sweep keeps the thorough tier within minutes
-		mutationSweep(prog, rep, kindsPanic, (sweepSize()+2)/3)
+		mutationSweep(prog, rep, kindsPanic, (sweepSize()+3)/4)
 	}
 }
 
